@@ -12,6 +12,7 @@ from pyvolutionary import (
 # ---------------------------------------------------------------------------------------------------------------
 # objective log: one record per execution, reset by the harness
 OBJ = {'calls': 0, 'bad': [], 'nan_cost': 0, 'args': None}
+YIELD_HOOK = None      # set by mc.interleave: every objective call is a yield point of the thread scheduler
 
 
 def reset_obj(keep_args=False):
@@ -133,6 +134,8 @@ class VTask(Task):
 
     def objective_function(self, x):
         d = self.data
+        if YIELD_HOOK is not None:
+            YIELD_HOOK()
         OBJ['calls'] += 1
         sp = _space_of(self)
         pr = position_problem(sp, x)
@@ -260,7 +263,13 @@ def task_dump(task):
             d['__children__'] = [c.model_dump() for c in ch]
         return (type(v).__name__, repr(d))
     import copy
+    try:
+        b = task.get_bounds()
+        bounds = repr([np.asarray(x).tolist() for x in b])
+    except Exception as e:      # tasks whose bounds cannot be built (C14 finding) still have to stay unchanged
+        bounds = 'raises ' + type(e).__name__
     return {
+        'bounds': bounds,
         'fields': repr({k: v for k, v in task.model_dump(exclude={'variables'}).items()}),
         'variables': [vd(v) for v in task.variables],
         'data': copy.deepcopy(task.data),
